@@ -805,6 +805,44 @@ def f(v):
     return _h(v), _h(v, 2)
 ''', ['f(1)'])
 
+case('class method of a private named-tuple container, called through the class name', '''
+from collections import namedtuple
+class _Opts(namedtuple('_Opts', ['prefix', 'flag'])):
+    __slots__ = ()
+    @classmethod
+    def from_kwargs(cls, kw):
+        o = cls(prefix=kw.pop('prefix', ''), flag=kw.pop('flag', True))
+        if kw:
+            raise TypeError('left: %r' % sorted(kw))
+        return o
+    @staticmethod
+    def describe(o):
+        return '%s/%s' % (o.prefix, o.flag)
+def f(**kwargs):
+    opts = _Opts.from_kwargs(kwargs)
+    return opts.prefix + 'x', opts.flag, opts[0], _Opts.describe(opts), type(opts).__name__, kwargs
+''', ['f()', 'f(prefix="/a")', 'f(flag=0, prefix="p")', 'f(other=1)'])
+
+case('named-tuple subclass with its own constructor / a re-bound class name: left alone', '''
+from collections import namedtuple
+class _P(namedtuple('_P', 'a b')):
+    def __new__(cls, a, b=5):
+        return super(_P, cls).__new__(cls, a, b * 2)
+class _Q(namedtuple('_Q', 'a b')):
+    @classmethod
+    def make(cls, a):
+        return cls(a, 1)
+_Q2 = _Q
+class _Q(namedtuple('_Q', 'a b')):
+    @classmethod
+    def build(cls, a):
+        return cls(a, 2)
+def f(x):
+    p = _P(x, 3)
+    q = _Q.build(x)
+    return p.a, p.b, q.b, _Q2.make(x).b
+''', ['f(1)'], expect_inlined=False)
+
 
 def run_case(name, src, calls, expect_inlined):
     tree = ast.parse(src)
@@ -840,7 +878,7 @@ def run_case(name, src, calls, expect_inlined):
         f = [s for s in new.body if isinstance(s, ast.FunctionDef) and s.name == 'f']
         local_defs = set(d.name for s in f for d in ast.walk(s) if isinstance(d, ast.FunctionDef) and d is not s)
         left = [c.func.id for s in f for c in ast.walk(s) if isinstance(c, ast.Call) and isinstance(c.func, ast.Name)
-                and (c.func.id.startswith('_') or c.func.id in local_defs) and c.func.id not in ('_noisy2', '_Phase')]
+                and (c.func.id.startswith('_') or c.func.id in local_defs) and c.func.id not in ('_noisy2', '_Phase', '_Opts')]
         if left:
             return 'helper calls left in f: %s\n%s' % (left, out)
     return None
